@@ -37,6 +37,41 @@ def run_cases(b, cases, tag, timeout_ms=5000, use_model=True):
     crashed = p.returncode != 0
     return res, crashed, p.stderr[-2000:]
 
+def vm_crosscheck(ck, results, limit):
+    """Extraction cross-check: a sample of the very lines the extracted program answered is
+    evaluated again with vm_compute inside coqc (same Gallina function, same text)."""
+    import tempfile
+    sample = [(r['line'], r.get('model')) for r in results.values() if r.get('line') and r.get('model') and len(r['line']) < 6000][:limit]
+    if not sample:
+        return
+    d = os.path.join(WORK, 'vmcheck')
+    os.makedirs(d, exist_ok=True)
+    path = os.path.join(d, ck.pid + '_vm.v')
+    with open(path, 'w') as f:
+        f.write('From JV Require Import Model.Top.\nOpen Scope string_scope.\n')
+        f.write('Definition lines : list string := [\n  ' + ';\n  '.join('"%s"' % l.replace('"', '""') for l, _ in sample) + '].\n')
+        f.write('Definition outs := Eval vm_compute in map run_line_all lines.\n')
+        f.write('Definition show := Eval vm_compute in String.concat (String (Ascii.ascii_of_nat 10) "") outs.\nPrint show.\n')
+    p = subprocess.run('timeout 900 coqc -Q %s JV %s' % (build.COQ, path), shell=True, capture_output=True, text=True)
+    if p.returncode != 0:
+        ck.notes.append('vm_compute cross-check could not run: ' + p.stdout[-300:] + p.stderr[-300:])
+        return
+    import re as _re
+    m = _re.search(r'show\s*=\s*"(.*)"\s*:\s*string', p.stdout, _re.S)
+    if not m:
+        ck.notes.append('vm_compute cross-check: cannot parse coqc output')
+        return
+    got = m.group(1).replace('""', '"').split('\n')
+    got = [g.strip() for g in ' '.join(m.group(1).split()).split(' ') ] if False else got
+    want = [l.split('|', 1)[0] + '|' + mo for l, mo in sample]
+    # coqc wraps long strings: compare with whitespace removed
+    strip = lambda x: ''.join(x.split())
+    gj, wj = strip(''.join(got)), strip(''.join(want))
+    ck.stats['vm_crosschecked'] += len(sample)
+    if gj != wj:
+        ck.report_violation({'kind': 'extraction-mismatch', 'broken': 'the extracted OCaml model and vm_compute disagree on a sampled case',
+                             'vm_compute': got[:5], 'extracted': want[:5]}, no_input=True)
+
 def project(w):
     """Projection of an outcome: error message texts and function names of lambdas are not
     observables; everything else is."""
@@ -112,6 +147,8 @@ def known_match(known, pid, case, what):
         if k.get('expr_regex') and not re.search(k['expr_regex'], case.get('expr', '')):
             continue
         if k.get('what_regex') and not re.search(k['what_regex'], what):
+            continue
+        if k.get('case_tag') and k['case_tag'] not in case.get('tags', []):
             continue
         return k
     return None
@@ -346,6 +383,8 @@ def simple_run(pid, tier, seed, replay, rule, cases_fn, owner_direct=(), unorder
                     r['model'] = r['impl']
                     ck.stats['agree_as_multiset'] += 1
         ck.std_analyze(part, res, crashed, owner_direct=owner_direct, panics_are=panics_are, value_compare=value_compare)
+        if i == 0 and not replay:
+            vm_crosscheck(ck, res, 12 if tier == 'quick' else 150)
         if post:
             post(ck, part, res)
         for c in part:
